@@ -137,6 +137,26 @@ func errToken(err error) *Tk {
 	return &Tk{rul3s[r.Uint()], b.Uint(), e.Uint()}
 }
 
+// textIntact: the parser's rune buffer (field "buffer", read by reflection) still is []rune(text) followed by the end
+// symbol. "" when it is, or when there is no such field to look at.
+func textIntact(p any, text string) string {
+	defer func() { recover() }()
+	f := reflect.Indirect(reflect.ValueOf(p)).FieldByName("buffer")
+	if !f.IsValid() || f.Kind() != reflect.Slice || f.Type().Elem().Kind() != reflect.Int32 {
+		return ""
+	}
+	want := []rune(text)
+	if f.Len() != len(want)+1 {
+		return fmt.Sprintf("the parser's rune buffer has %d elements, the text has %d runes (+ end symbol)", f.Len(), len(want))
+	}
+	for i, c := range want {
+		if rune(f.Index(i).Int()) != c {
+			return fmt.Sprintf("rune %d of the parser's buffer is %U, the text has %U", i, rune(f.Index(i).Int()), c)
+		}
+	}
+	return ""
+}
+
 func collect[U Uint](p *{{.Type}}[U], err error, req *Req, res *Res) {
 	res.OK = err == nil
 	res.NRunes = len([]rune(p.Buffer))
@@ -147,6 +167,11 @@ func collect[U Uint](p *{{.Type}}[U], err error, req *Req, res *Res) {
 		res.ErrType = fmt.Sprintf("%T", err)
 		res.Max = errToken(err)
 		res.Err = err.Error()
+		// producing the message must leave the parser's own copy of the text alone (the parser may be used again
+		// without Reset: another entry rule on the same text)
+		if why := textIntact(p, p.Buffer); why != "" {
+			res.Bad = append(res.Bad, "after Error(): "+why)
+		}
 		return
 	}
 {{if not .NoAST}}
